@@ -583,7 +583,8 @@ def w_combo(addr: Optional[int], val: int, pa: int, rd: int, c1: bool) -> bool:
     return done()
 
 
-AUX_TYPES = ["uint64_t", "int64_t", "mapping<string,int64_t>", "sequence<tuple<uint8_t,int64_t>>", "set<UUID>", "mapping<UUID,Offset>", "string", "bool"]
+AUX_TYPES = ["uint64_t", "int64_t", "mapping<string,int64_t>", "sequence<tuple<uint8_t,int64_t>>", "set<UUID>", "mapping<UUID,Offset>", "string", "bool",
+             "sequence<int64_t>", "mapping<string,sequence<int16_t>>", "variant<string,UUID>"]
 
 
 def w_aux(v: int) -> bool:
@@ -611,6 +612,12 @@ def w_aux(v: int) -> bool:
         val = {s.uuid: gtirb.Offset(cb, v + I63), loose: gtirb.Offset(loose, 0)}
     elif t == "string":
         val = NAMES[2]
+    elif t == "sequence<int64_t>":
+        val = [v, -1, 0]
+    elif t == "mapping<string,sequence<int16_t>>":
+        val = {"k": [-2, 3, -32768]}
+    elif t == "variant<string,UUID>":
+        val = gtirb.serialization.Variant(1, cb)
     else:
         val = v >= 0
     holder = ir if level == "ir" else m
@@ -658,12 +665,43 @@ def w_aux(v: int) -> bool:
         ok = len(got) == 2 and got[0] == (1, v) and got[1] == (2, -1)
     elif t == "mapping<string,int64_t>":
         ok = len(got) == 2 and got["k"] == v and got[""] == 0
+    elif t == "sequence<int64_t>":
+        ok = len(got) == 3 and got[0] == v and got[1] == -1 and got[2] == 0
+    elif t == "mapping<string,sequence<int16_t>>":
+        ok = list(got.keys()) == ["k"] and got["k"] == [-2, 3, -32768]
+    elif t == "variant<string,UUID>":
+        ok = got.index == 1 and got.val is cb2
     else:
         ok = got == val and type(got) is type(val) or (isinstance(val, int) and got == val)
     if not ok:
         return fail("decoded AuxData value differs after load (AuxData must be decoded against the loaded IR)")
     if not (ir.deep_eq(ir2) and ir2.deep_eq(ir)):
         return fail("deep_eq after load")
+    return done()
+
+
+def w_aux_renamed(v: int) -> bool:
+    """
+    pre: 0 <= v < 2**32
+    post: __return__
+    """
+    # a loaded table whose type name is changed (never read) and is then written: the data field must be the encoding of the
+    # value under the CURRENT name (uint32 -> uint64: 8 bytes), the type_name field the current name
+    with untraced():
+        ir, m, s, bi = _base()
+    ir.aux_data["t"] = gtirb.AuxData(v, "uint32_t")
+    m.aux_data["u"] = gtirb.AuxData([v, 1], "sequence<uint32_t>")
+    ir2 = gtirb.IR._from_protobuf(ir._to_protobuf(), None)
+    ir2.aux_data["t"].type_name = "uint64_t"
+    ir2.modules[0].aux_data["u"].type_name = "sequence<uint64_t>"
+    msg = ir2._to_protobuf()
+    a, b = msg.aux_data["t"], msg.modules[0].aux_data["u"]
+    if a.type_name != "uint64_t" or b.type_name != "sequence<uint64_t>":
+        return fail("type_name field")
+    if len(a.data) != 8 or sum(a.data[i] * 256 ** i for i in range(8)) != v:
+        return fail("data field of a renamed table is not the encoding under its current type name")
+    if len(b.data) != 24 or sum(b.data[8 + i] * 256 ** i for i in range(8)) != v or b.data[16] != 1:
+        return fail("data field of a renamed sequence table")
     return done()
 
 
@@ -888,10 +926,19 @@ def r_expr(off: int, scale: int, flag: int) -> bool:
         pe.attribute_flags.append(flag)
     if nflags >= 2:
         pe.attribute_flags.append(SymbolicExpression_pb2.SymAttribute.DESCRIPTOR.values_by_name["PLT"].number)
+    # a neighbour without any flag, decoded after / before the flagged one, and the same message loaded once more
+    nkey = key + 1 if key < 2 ** 64 - 1 else key - 1
+    pn = pbi.symbolic_expressions[nkey]
+    pn.addr_const.offset = 9
+    pn.addr_const.symbol_uuid = U(8).bytes
+    ir0 = gtirb.IR._from_protobuf(msg, None)
     ir = gtirb.IR._from_protobuf(msg, None)
     bi = ir.get_by_uuid(U(4))
-    if list(bi.symbolic_expressions.keys()) != [key]:
+    if sorted(bi.symbolic_expressions.keys()) != sorted([key, nkey]):
         return fail("expression keys")
+    nb = bi.symbolic_expressions[nkey]
+    if len(nb.attributes) != 0 or nb.offset != 9 or len(ir0.get_by_uuid(U(4)).symbolic_expressions[nkey].attributes) != 0:
+        return fail("an expression without attribute flags loaded with attributes (state shared between expressions or loads)")
     e = bi.symbolic_expressions[key]
     y1, y2 = ir.get_by_uuid(U(8)), ir.get_by_uuid(U(9))
     if kind == "const":
